@@ -13,6 +13,9 @@
 #include <unistd.h>
 #include <stdint.h>
 
+// the NSTD_VERIF hooks of /repo (Atomic.hpp, ...) call this; sequential drivers have no scheduler: a no-op
+extern "C" void nstd_verif_point(int, const volatile void*) {}
+
 static FILE* g_out = 0;
 static char g_line[1 << 16];
 static char* g_cur = 0;
